@@ -733,8 +733,8 @@ def _register(g):
     oset(n + ".init-machine-lemma", ["C09"], [_fn(g, "_message_received"), _fn(g, "_connection_changed")], kind="lemma",
          assumptions=["lemma over the transition table of the _message_received / _connection_changed contracts (finite, enumerated completely)"])(
              lambda h: _init_machine_lemma(h, g))
-    oset(n + "._message_received", ["C09", "C10", "C14", "C02"], [_fn(g, "_message_received")])(lambda h: _message_received(h, g))
-    oset(n + "._connection_changed", ["C14", "C09", "C02"], [_fn(g, "_connection_changed")])(lambda h: _connection_changed(h, g))
+    oset(n + "._message_received", ["C09", "C10", "C14", "C02", "C08", "C15"], [_fn(g, "_message_received")])(lambda h: _message_received(h, g))
+    oset(n + "._connection_changed", ["C14", "C09", "C02", "C19"], [_fn(g, "_connection_changed")])(lambda h: _connection_changed(h, g))
     oset(n + ".init", ["C09", "C15"], [_fn(g, "init"), _fn(g, "initialised")],
          trusted=["asyncio.wait_for(aw, t): returns when aw completes, or raises TimeoutError exactly t seconds after it started"])(lambda h: _init(h, g))
     oset(n + ".shutdown", ["C15"], [_fn(g, "shutdown")],
